@@ -226,6 +226,28 @@ func (w *World) Past() error {
 			}
 		}
 	}
+	// every union is offered every object type it does not have (the document is refused for another type)
+	for _, n := range names {
+		if w.U.Types[n].Kind != "UNION" {
+			continue
+		}
+		var add []string
+		for _, o := range names {
+			if w.U.Types[o].Kind != "OBJECT" {
+				continue
+			}
+			member := false
+			for _, m := range w.U.Types[n].Members {
+				member = member || m == o
+			}
+			if !member {
+				add = append(add, o)
+			}
+		}
+		if 0 < len(add) {
+			fmt.Fprintf(&ext, "extend union %s = %s\n", n, strings.Join(add, " | "))
+		}
+	}
 	for _, tail := range []string{"type Bad9 { __x: Int }", "type Bad9 { x: Nope9 }", "type Bad9 implements Nope9 { x: Int }"} {
 		if err := w.Root.ParseString(ext.String() + tail); err == nil {
 			return fmt.Errorf("a document that must be refused was accepted: ... %s", tail)
@@ -297,6 +319,23 @@ func NewReflWorld(u *Universe, lm ListMode, b Binding) (*World, error) {
 					return nil, err
 				}
 			}
+		}
+	}
+	if b == BindGoDirFull {
+		// this world has a past of refused loads (extends of every type, every union offered every other object type)
+		if err := w.Past(); err != nil {
+			return nil, err
+		}
+	}
+	if _, ok := u.Types["Ab"]; ok {
+		// one Go type behind two object types: Ab (no implementor of anything, member of no union) is bound to the Go
+		// type that backs B
+		sample := refluni.New(w, "B", "")
+		if b == BindRegisterLate {
+			sample = refluni.NewAlt(w, "B", "")
+		}
+		if err := w.Root.RegisterType(sample, "Ab"); err != nil {
+			return nil, err
 		}
 	}
 	return w, nil
@@ -910,6 +949,7 @@ type Actual struct {
 	Response
 	Raw      map[string]interface{} `json:"-"`
 	Envelope []string               `json:"envelope,omitempty"` // keys of the response map
+	Tampered string                 `json:"tampered,omitempty"` // what the call did to data of the caller it may not touch
 }
 
 // FromResult converts a ggql response map.
@@ -955,9 +995,37 @@ func (w *World) Run(c *Case, lo Layout) *Actual {
 	wrapTarget = w
 	w.SetFaults(c.Faults)
 	w.TakeCalls()
-	vars := VarsToGo(c.Vars)
+	vars := w.callerVars(c.Vars)
 	res := w.Root.ResolveString(c.Doc.Text(lo), c.Op, vars)
-	return FromResult(res, w.TakeCalls())
+	act := FromResult(res, w.TakeCalls())
+	w.checkNoVars(act)
+	return act
+}
+
+// NoVars is the map an application hands to every request that comes without variables: ONE map, empty, shared by all
+// the worlds and all their requests.  Nobody may write into it: what one request's operation declares (its defaults)
+// is not a variable of the next request.
+var NoVars = map[string]interface{}{}
+
+func (w *World) callerVars(vars ValMap) map[string]interface{} {
+	if len(vars) == 0 {
+		return NoVars
+	}
+	return VarsToGo(vars)
+}
+
+// checkNoVars: the shared empty variables map is still empty (reported once per run, as a difference in the data).
+func (w *World) checkNoVars(act *Actual) {
+	if len(NoVars) == 0 {
+		return
+	}
+	var keys []string
+	for k := range NoVars {
+		keys = append(keys, k)
+		delete(NoVars, k)
+	}
+	sort.Strings(keys)
+	act.Tampered = "the library wrote into the caller's (empty) variables map: " + strings.Join(keys, ", ")
 }
 
 // RunExe resolves an already parsed executable and assembles the response the
@@ -965,14 +1033,16 @@ func (w *World) Run(c *Case, lo Layout) *Actual {
 func (w *World) RunExe(exe *ggql.Executable, op string, vars ValMap) *Actual {
 	wrapTarget = w
 	w.TakeCalls()
-	result, err := w.Root.ResolveExecutable(exe, op, VarsToGo(vars))
+	result, err := w.Root.ResolveExecutable(exe, op, w.callerVars(vars))
 	if result == nil {
 		result = map[string]interface{}{"data": nil}
 	}
 	if err != nil {
 		result["errors"] = ggql.FormErrorsResult(err)
 	}
-	return FromResult(result, w.TakeCalls())
+	act := FromResult(result, w.TakeCalls())
+	w.checkNoVars(act)
+	return act
 }
 
 // SetPanic makes the resolver call node.field panic ("" = none).
@@ -1047,6 +1117,9 @@ func pathsOf(errs []ErrRec) []string {
 // Compare returns the aspects in which actual differs from exp.
 func Compare(exp *Response, act *Actual, withCalls bool) []Diff {
 	var ds []Diff
+	if act.Tampered != "" {
+		ds = append(ds, Diff{"data", act.Tampered})
+	}
 	if !exp.HasData {
 		if act.HasData {
 			ds = append(ds, Diff{"opchoice", "the model executes no operation but the response has data " + act.Data.String()})
